@@ -1,11 +1,16 @@
 #!/bin/bash
-# usage: try_patch.sh <patch.diff> <ID> [<ID>...]   -- apply to /repo, rebuild harness, run quick checks, revert.
+# usage: try_patch.sh <patch.diff> <ID> [<ID>...]
+# Apply a seeded change to /repo's working tree, rebuild the harness, run the quick checks
+# of the given properties (evidence/replays go to /tmp/verif-try, not /verif), then undo.
 set -u
-P=$1; shift
+P=$(readlink -f "$1"); shift
 cd /repo && git apply "$P" || { echo "patch does not apply"; exit 3; }
-trap 'git -C /repo checkout -- . ' EXIT
+trap 'git -C /repo checkout -- . ; git -C /repo clean -fdq -- air crates avm 2>/dev/null' EXIT
 cd /verif/harness && cargo build --release 2>&1 | grep -E "^error" -A8 | head -20
+rm -rf /tmp/verif-try; mkdir -p /tmp/verif-try
 for id in "$@"; do
-  VERIF_ROOT=/tmp/verif-try ./target/release/aquaverif check $id quick 2>&1 | grep -v "^proptest" | tail -4
-  echo "exit=$? ($id)"
+  VERIF_OUT=/tmp/verif-try ${VERIF_TIMEOUT:+timeout $VERIF_TIMEOUT} ./target/release/aquaverif check $id ${VERIF_TIER:-quick} > /tmp/verif-try/$id.log 2>&1
+  code=$?
+  grep -v "^proptest" /tmp/verif-try/$id.log | grep -E "VIOLATION|signature|message|also:|cases=|INCONCL" | cut -c1-400 | head -8
+  echo "exit=$code ($id)"
 done
